@@ -7,7 +7,8 @@
 //   NS <arch> <hex|->             -> NS <id>
 //   V <mode> <inst> <options> <extra_type> <extra_id> <nops> <ops...>   -> V <err>
 //   E <mode> <inst> <options> <extra_type> <extra_id> <nops> <ops...>   -> E <validate err> <emit err, validation off> <bytes|-> <emit err, validation on> <bytes|-> <Builder emit err (kValidateIntermediate)> <finalize err> <bytes|->
-//   H <A|B> <style 0 detach | 1 reset holder> <n> <m1..mn> <inst> <options> <extra_type> <extra_id> <nops> <ops...>
+//   HA <validate> <style> <n>     -> HA <first error> <bytes> (one a64::Assembler, n attachments, fixed AArch64 instruction list)
+//   H <A|B|C> <style 0 detach | 1 reset holder> <n> <m1..mn> <inst> <options> <extra_type> <extra_id> <nops> <ops...>
 //                                 -> H <emit err with validation in the LAST holder> <finalize err (Builder)> <bytes|->
 //   ops:  R <reg_type> <id> | M <size> <base_type> <base_id> <index_type> <index_id> <shift> <offset> <segment> <bcst> <home> | I <int64> | L | N
 //   arch: 0 = x86 (32-bit), 1 = x64, 2 = AArch64;  mode: 0 = x86, 1 = x64, +2 = ValidationFlags::kEnableVirtRegs (V only)
@@ -124,7 +125,7 @@ static void run_builder(const Cmd& c, Error& eb, Error& ef, std::string& bytes) 
 // between); in the last one the instruction is emitted with validation enabled (Assembler: kValidateAssembler; Builder:
 // kValidateIntermediate + finalize). The answer must be the one of a fresh emitter in the last mode.
 template<typename EmitterT>
-static void run_history(EmitterT& em, bool is_builder, const std::vector<int>& modes, int style, const Cmd& c, Error& e, Error& ef, std::string& bytes) {
+static void run_history(EmitterT& em, bool is_builder, const std::vector<int>& modes, int style, const Cmd& c, Error& e, Error& ef, std::string& bytes, bool do_finalize) {
   std::vector<CodeHolder*> holders;
   e = Error::kOk; ef = Error::kOk; bytes = "-";
   for (size_t i = 0; i < modes.size(); i++) {
@@ -143,9 +144,9 @@ static void run_history(EmitterT& em, bool is_builder, const std::vector<int>& m
     em.set_inst_options(InstOptions(c.options));
     if (c.extra_type != 0) { Reg r; r._init_reg(RegUtils::signature_of(RegType(c.extra_type)), c.extra_id); em.set_extra_reg(r); }
     e = em.emit_op_array(c.inst, c.ops, c.nops);
-    if (e == Error::kOk && is_builder) ef = em.finalize();
+    if (e == Error::kOk && is_builder && do_finalize) ef = em.finalize();
     CodeBuffer& buf = code->text_section()->buffer();
-    if (e == Error::kOk) bytes = hex_of((const char*)buf.data(), buf.size());
+    if (e == Error::kOk && do_finalize) bytes = hex_of((const char*)buf.data(), buf.size());
   }
   for (CodeHolder* h : holders) { if (h->is_initialized()) h->reset(); delete h; }
 }
@@ -171,6 +172,33 @@ int main() {
       std::string s = unhex(h);
       uint32_t id = InstAPI::string_to_inst_id(arch_of(a), s.data(), s.size());
       printf("NS %u\n", id);
+    } else if (k == "HA") {
+      // HA <validate 0|1> <style> <n>: ONE a64::Assembler attached n times (detach / holder reset between); in the last holder a fixed list of
+      // AArch64 instructions is emitted (with kValidateAssembler if asked) -> HA <first error> <bytes>
+      int von, style; size_t n; in >> von >> style >> n;
+      a64::Assembler a;
+      std::vector<CodeHolder*> holders;
+      Error e = Error::kOk; std::string b = "-";
+      for (size_t i = 0; i < n; i++) {
+        CodeHolder* code = new CodeHolder(); holders.push_back(code);
+        code->init(Environment(Arch::kAArch64));
+        if (code->attach(&a) != Error::kOk) { e = Error::kInvalidState; break; }
+        if (i + 1 < n) { if (style == 0) code->detach(&a); else code->reset(); continue; }
+        if (von) a.add_diagnostic_options(DiagnosticOptions::kValidateAssembler);
+        using namespace a64;
+        Label l = a.new_label(); a.bind(l);
+        Error es[] = {
+          a.add(x0, x1, x2), a.add(w3, w4, 17), a.sub(x5, sp, 32), a.mov(x6, 0x123456789ABCull), a.ldr(x7, ptr(x8, 16)), a.str(w9, ptr(sp, 4)),
+          a.ldp(x10, x11, ptr(sp)), a.madd(x12, x13, x14, x15), a.and_(w16, w17, 0xFF), a.lsl(x18, x19, 3), a.cmp(x20, x21), a.csel(x22, x23, x24, CondCode::kEQ),
+          a.b(l), a.cbz(x25, l), a.bl(l), a.ret(x30), a.fadd(d0, d1, d2), a.fmul(s3, s4, s5), a.add(v6.b16(), v7.b16(), v8.b16()), a.ld1(v9.s4(), ptr(x0)),
+          a.fmov(d10, 1.0), a.scvtf(d11, x1), a.dup(v12.s4(), w2), a.umov(w3, v13.b(3)), a.ldxr(x4, ptr(x5)), a.stlr(w6, ptr(x7)), a.adr(x8, l), a.nop(),
+          a.add(x0, x1, x2, lsl(4)), a.ldr(w9, ptr(x10, x11, lsl(2))), a.movk(x12, 0xBEEF, 16), a.tbz(x13, 5, l) };
+        for (Error x : es) if (x != Error::kOk && e == Error::kOk) e = x;
+        CodeBuffer& buf = code->text_section()->buffer();
+        b = hex_of((const char*)buf.data(), buf.size());
+      }
+      for (CodeHolder* h : holders) { if (h->is_initialized()) h->reset(); delete h; }
+      printf("HA %u %s\n", unsigned(e), b.c_str());
     } else if (k == "H") {
       // H <A|B> <style> <n> <m1..mn> <inst> <options> <extra_type> <extra_id> <nops> <ops...>   (instruction mode = mn)
       std::string kind; int style; size_t n; in >> kind >> style >> n;
@@ -181,8 +209,9 @@ int main() {
       Cmd c;
       if (modes.empty() || !parse_ops(in2, c, 0)) { printf("H parse-error\n"); continue; }
       Error e, ef; std::string b;
-      if (kind == "A") { x86::Assembler a; run_history(a, false, modes, style, c, e, ef, b); }
-      else { x86::Builder bld; run_history(bld, true, modes, style, c, e, ef, b); }
+      if (kind == "A") { x86::Assembler a; run_history(a, false, modes, style, c, e, ef, b, true); }
+      else if (kind == "C") { x86::Compiler cc; run_history(cc, true, modes, style, c, e, ef, b, false); }
+      else { x86::Builder bld; run_history(bld, true, modes, style, c, e, ef, b, true); }
       printf("H %u %u %s\n", unsigned(e), unsigned(ef), b.c_str());
     } else if (k == "V" || k == "E") {
       Cmd c;
